@@ -61,7 +61,7 @@ pub enum ExprInner {
 #[derive(Debug, PartialEq, Eq, Clone, Hash)]
 pub enum AstCmr {
     Expr(Arc<Expression>),
-    Literal,
+    Literal(crate::Cmr),
 }
 
 /// A type, as represented in the AST
@@ -593,9 +593,17 @@ fn parse_cmr<J: Jet + 'static>(p: &mut Parser) -> Result<AstCmr, ErrorSet> {
         return Ok(AstCmr::Expr(Arc::new(expr)));
     }
 
-    if let Some(Token::CmrLiteral(_)) = p.peek() {
+    if let Some(Token::CmrLiteral(raw)) = p.peek().cloned() {
+        let position = p.current_position();
         p.advance();
-        return Ok(AstCmr::Literal);
+        // token text is `#` followed by 64 hex digits
+        return match raw[1..].parse::<crate::Cmr>() {
+            Ok(cmr) => Ok(AstCmr::Literal(cmr)),
+            Err(_) => Err(ErrorSet::single(
+                position,
+                Error::ParseFailed(Some(raw.to_string())),
+            )),
+        };
     }
 
     Err(ErrorSet::single(
